@@ -221,8 +221,8 @@ PROPS = {
     },
     'C13': {
         'level': 'proof',
-        'level_text': 'Verus proves for all inputs: Span::new returns Some exactly for in-range boundary pairs (and the span it returns), merge_spans succeeds exactly for overlapping or adjacent spans of one input and yields their hull, Position::new/span and the unchecked constructors establish the span invariant. Agreement of get (6 range forms), split, as_str, lines, lines_span with pest::Span is a bounded stand-in (exhaustive native enumeration up to 4/6 characters).',
-        'level_note': NOTE_COMMON + 'str::get / cmp::min,max shims (R3), UTF-8 lemmas admitted; lines/lines_span/get only bounded.',
+        'level_text': 'Verus proves for all inputs: Span::new returns Some exactly for in-range boundary pairs (and the span it returns), merge_spans succeeds exactly for overlapping or adjacent spans of one input and yields their hull, Position::new/span and the unchecked constructors establish the span invariant, start_pos / end_pos / split return the two ends, and Span::get — instantiated at each of the six range forms (R10) — returns Some exactly when the requested range lies within the text of the span on character boundaries, and then that range shifted by the start of the span (requires: no overflow of the +1 on an inclusive bound). Agreement of lines and lines_span with pest::Span, and of all the above with pest itself, is a bounded stand-in (exhaustive native enumeration up to 4/6 characters).',
+        'level_note': NOTE_COMMON + 'str::get / cmp::min,max shims (R3); UTF-8 boundary lemmas proved from vstd definitions; lines/lines_span only bounded; an inclusive bound of usize::MAX (overflow in the source, same as in pest) is excluded by precondition.',
         'technique': TECH,
         'verus': ['spanpos'],
         'expanded': False,
